@@ -35,6 +35,7 @@ pub struct C13;
 
 pub static KILLS: AtomicU64 = AtomicU64::new(0);
 static POINT_HIST: Mutex<BTreeMap<String, u64>> = Mutex::new(BTreeMap::new());
+static SAMPLE_KILLS: Mutex<Vec<String>> = Mutex::new(Vec::new());
 
 fn progress_path(dir: &Path) -> PathBuf {
     let mut s = dir.as_os_str().to_owned();
@@ -256,6 +257,7 @@ impl Prop for C13 {
         let mut m = serde_json::Map::new();
         let _ = m.insert("kills_executed".into(), serde_json::json!(KILLS.load(Ordering::SeqCst)));
         let _ = m.insert("kills_by_point".into(), serde_json::json!(*POINT_HIST.lock().unwrap()));
+        let _ = m.insert("sample_kills".into(), serde_json::json!(*SAMPLE_KILLS.lock().unwrap()));
         m
     }
     fn check(&self, c: &Case) -> Outcome {
@@ -412,6 +414,12 @@ impl Prop for C13 {
             out.sub_evals += 1;
             let (pstep, pname) = if k >= 1 { points[(k - 1) as usize].clone() } else { (-2, "random-instant".to_string()) };
             *POINT_HIST.lock().unwrap().entry(pname.clone()).or_insert(0) += 1;
+            {
+                let mut sk = SAMPLE_KILLS.lock().unwrap();
+                if sk.len() < 8 && (k % 7 == 3 || random_us.is_some()) {
+                    sk.push(format!("SIGKILL at point {k}/{m} '{pname}' inside step {pstep} {:?} of a {}-step history (prefix of {prefix} steps applied beforehand)", if pstep >= 0 { steps.get(pstep as usize) } else { None }, steps.len()));
+                }
+            }
             if k >= 1 && !run.killed {
                 out.fail("C13:harness:child-not-killed", format!("k={k}/{m} exit {:?} out {}", run.exit, run.stdout));
                 return out;
